@@ -517,6 +517,8 @@ class URL:
         self.path_parts = tuple([unquote(p) if '%' in p else p for p
                                  in (ud['path'] or _e).split('/')])
         self._query = ud['query'] or _e
+        # a "?" followed by nothing is an empty query, not a missing one
+        self._query_defined = ud['query'] is not None
         self.fragment = (unquote(ud['fragment'])
                          if '%' in (ud['fragment'] or _e) else ud['fragment'] or _e)
         # TODO: possibly use None as marker for empty vs missing
@@ -693,7 +695,8 @@ class URL:
                                + list(dest.path_parts)
         else:
             new_path_parts = list(self.path_parts)
-            if not query_params:
+            if not query_params and not dest._query_defined:
+                # RFC 3986 5.2.2: only an undefined query is inherited
                 query_params = self.query_params
 
         ret = self.from_parts(scheme=dest.scheme or self.scheme,
